@@ -581,10 +581,10 @@ def larger_documents(chunk, replay=None):
                 pass
         if not samples:
             samples.append(dict(modules=len(mods), nets=len(doc["Nets"]), first=list(mods.items())[0]))
-        if len(failures) >= 4 or replay:
+        if len([f_ for f_ in failures if 'accepted: hard_overlapping_rectangles in micro units' not in str(f_.get('observed', ''))]) >= 4 or replay:      # failures of the recorded known finding do not end the run early
             break
     Rectangle.undefine_epsilon()
-    return dict(evaluations=evals, distinct_nontrivial=nontriv, exhaustive=False, failures=failures[:4],
+    return dict(evaluations=evals, distinct_nontrivial=nontriv, exhaustive=False, failures=sorted(failures, key=lambda f_: 'accepted: hard_overlapping_rectangles in micro units' in str(f_.get('observed', '')))[:4] + [f_ for f_ in failures if 'accepted: hard_overlapping_rectangles in micro units' in str(f_.get('observed', ''))][:1],
                 rule="random well-formed documents (6-12 modules: soft scalar / per-region / with rectangles in named regions, hard, flippable, fixed, "
                      "terminals; up to 5 pairwise disjoint rectangles of different areas; 3-8 nets of 2-8 pins, half of them weighted) loaded by the real "
                      "Netlist; every module against spec_area / spec_center / rectangle lists, every net against the wire-length definition; then one "
